@@ -338,6 +338,24 @@ class Body:
             raise AnchorLost("no local named %r in %s" % (name, self.name))
         return ls[0]
 
+    def upvar_place(self, name):
+        for u in self.raw.get("upvars", []):
+            if u["name"] == name:
+                return u["place"]
+        return None
+
+    def derives_from_var(self, local, name, through_call=None):
+        """`local`'s backward slice reaches the user variable `name` (a plain local or a captured upvar)."""
+        org, vis = self.backward_slice(local, through_call=through_call or (lambda c: False))
+        if any(self.locals[v].get("name") == name for v in vis):
+            return True
+        up = self.upvar_place(name)
+        if up is not None:
+            for o in org:
+                if o["k"] == "place" and o["pl"]["l"] == up["l"] and (o["pl"].get("p") or [])[:len(up.get("p") or [])] == (up.get("p") or []):
+                    return True
+        return False
+
     def local_ty(self, l):
         return self.locals[l]["ty"]
 
@@ -424,7 +442,7 @@ class Body:
                     pass
         return tainted
 
-    def backward_origins(self, local, max_depth=40, through_call=None):
+    def backward_origins(self, local, max_depth=40, through_call=None, all_args=False):
         """Backward slice: the set of 'origin' descriptors a local's value derives from.
 
         Returns list of dicts: {"k":"call","call":Call} | {"k":"const","op":..} | {"k":"arg","l":n}
@@ -447,7 +465,7 @@ class Body:
                 if kind == "call":
                     c = calls.get(bi)
                     if c is not None and through_call is not None and through_call(c):
-                        for a in payload["args"]:
+                        for a in (payload["args"] if all_args else payload["args"][:1]):
                             b = op_base(a)
                             if b is not None:
                                 visit(b, depth + 1)
@@ -575,6 +593,29 @@ class Body:
             else:
                 break
         return bb
+
+    # -- awaits -------------------------------------------------------------------------
+    def await_points(self):
+        """Suspension points: [{"yield": bb, "poll": Call|None, "src": Call|None, "sp": span}].
+
+        `src` is the call that produced the awaited future (through into_future / Pin::new_unchecked / refs)."""
+        out = []
+        polls = [c for c in self.calls() if c.is_fn("Future::poll") and c.desugar == "Await"]
+        for (bi, t) in self.yields():
+            best = None
+            for p in polls:
+                if self.dominates(p.bb, bi):
+                    if best is None or self.dominates(best.bb, p.bb):
+                        best = p
+            src = None
+            if best is not None:
+                org = self.backward_origins(op_base(best.args[0]), through_call=lambda c: c.is_fn(
+                    "IntoFuture::into_future", "Pin::<Ptr>::new_unchecked", "Pin::<Ptr>::new"))
+                srcs = [o["call"] for o in org if o["k"] == "call" and o["call"] is not None]
+                if srcs:
+                    src = srcs[0]
+            out.append({"yield": bi, "poll": best, "src": src, "sp": t.get("sp") or {}})
+        return out
 
     # -- boolean predicates -------------------------------------------------------------
     def bool_edges(self, local):
